@@ -354,7 +354,24 @@ pub fn run(seed: u64, n: usize, out: &mut dyn Write) {
             let input: Vec<u8> = sents.iter().flat_map(|x| x.bytes().chain(std::iter::once(b'\n'))).collect();
             let ign = rng.below(3) == 0;
             let maxg = if rng.below(3) == 0 { Some(rng.below(4)) } else { None };
-            let use_user = with_user && !g.user.is_empty() && rng.below(2) == 0;
+            // user lexicon given to the program: none, the one written by dictgen, or a word with an EMPTY feature
+            // column that covers the beginning of the first sentence (cheap enough to be on the best path)
+            let mut user_bytes: Option<Vec<u8>> = None;
+            match rng.below(3) {
+                0 if with_user && !g.user.is_empty() => user_bytes = Some(g.user.clone()),
+                1 => {
+                    if let Some(first) = sents.iter().find(|x| !x.is_empty()) {
+                        let w: String = first.chars().take(1 + rng.below(2)).collect();
+                        let cell = if w.contains(',') || w.contains('"') { format!("\"{}\"", w.replace('"', "\"\"")) } else { w };
+                        user_bytes = Some(format!("{cell},0,0,-30000,\n").into_bytes());
+                    }
+                }
+                _ => {}
+            }
+            if let Some(u) = &user_bytes {
+                write(&env, "tok_user.csv", u);
+            }
+            let use_user = user_bytes.is_some();
             for mecab in [false, true] {
                 let mut targs: Vec<String> = vec!["-i".into(), p(&env, "sys.dic.zst"), "-O".into(), if mecab { "mecab".into() } else { "detail".into() }];
                 if ign {
@@ -364,13 +381,13 @@ pub fn run(seed: u64, n: usize, out: &mut dyn Write) {
                     targs.extend(["-M".into(), m.to_string()]);
                 }
                 if use_user {
-                    targs.extend(["-u".into(), p(&env, "user_out.csv")]);
+                    targs.extend(["-u".into(), p(&env, "tok_user.csv")]);
                 }
                 let (st_t, printed) = run_bin(&env, "tokenize", &targs, Some(&input));
                 let lib = guarded(|| {
                     let mut d = Dictionary::read(&bytes[..]).map_err(|_| ())?;
                     if use_user {
-                        d = d.reset_user_lexicon_from_reader(Some(&g.user[..])).map_err(|_| ())?;
+                        d = d.reset_user_lexicon_from_reader(Some(&user_bytes.as_ref().unwrap()[..])).map_err(|_| ())?;
                     }
                     Ok(d)
                 });
